@@ -143,7 +143,7 @@ func (c *FnCtx) genCandidates(li *loopInfo) []*candidate {
 		}
 	}
 	// slices built by this call: their backing array is fresh (or they have no capacity yet)
-	if c.frameMode() {
+	{
 		for _, sz := range sizes {
 			if strings.HasPrefix(sz, "cap(") {
 				x := strings.TrimSuffix(strings.TrimPrefix(sz, "cap("), ")")
